@@ -13,7 +13,7 @@ EXPLANATION = ('(1) Engine B: classification.py\'s bucket functions are translat
                'swapped or split across sources without changing any figure.')
 FUNCTIONS = ['classification.categorize_amount', 'classification.normalize_amount', 'classification.is_excluded_from_spending',
              'classification.calculate_cash_flow', 'classification.calculate_transfers_net', 'analyzer.analyze_transactions']
-BOUNDS = ('(1) all doubles x (null or <= 3 tags of <= 10 ASCII chars); (2) base lists of 0-3 concrete transactions, one or two '
+BOUNDS = ('(1) all doubles x (null or <= 3 tags of <= 10 ASCII chars; thorough: <= 8 tags of <= 24); (2) base lists of 0-3 concrete transactions, one or two '
           'symbolic transactions (exact-real amount, tag list from an enumerated family, merchant/category/month shared or new)')
 OUTSIDE = 'float rounding of sums (amounts are exact reals in (2)); non-ASCII tags; lists that cannot be built by the enumerated insertions'
 STUBS = ['(2) format(<symbolic number>, spec) returns "<num>" (calc_formula text is not asserted on)',
@@ -285,7 +285,7 @@ def permutation(base, tagset1, tagset2):
 
 def obligations(tier, seed):
     q = tier == 'quick'
-    k, l = (3, 10) if q else (4, 12)
+    k, l = (3, 10) if q else (8, 24)
     obs = []
     for what in ['buckets', 'one-bucket', 'normalize', 'excluded', 'flows']:
         obs.append(Obligation(id=f'spec-{what}', factory='spec', params={'what': what, 'k': k, 'l': l}, engine='smt', twin=False, timeout=300,
